@@ -111,3 +111,47 @@ def runmax(repo, modules=None):
                 elif len(res.samples) < 3:
                     res.samples.append(f"{f.qualname}: {acc} <- {ast.unparse(cand)}")
     return res
+
+
+_MUTATORS = {"append", "extend", "insert", "pop", "remove", "clear", "add", "discard", "update", "setdefault", "popitem",
+             "CopyFrom", "MergeFrom", "sort", "reverse", "write", "close"}
+
+
+def asserteffect(repo):
+    """R-ASSERTEFFECT (C18/C16): `python -O` (which ir_data.py itself recommends for speed) removes every `assert` statement,
+    test and message included.  An assert whose test binds a name (`:=`) or calls a mutating method therefore changes the
+    behaviour of the compiler between the two modes: with the binding gone, the next use of the name raises
+    UnboundLocalError.  No assert on the compile path may contain a binding or a mutator call.  The rule runs its pattern
+    on a built-in positive example on every run."""
+    res = RuleResult("R-ASSERTEFFECT")
+
+    def effects(node):
+        out = []
+        for x in ast.walk(node):
+            if isinstance(x, ast.NamedExpr):
+                out.append(f"binds `{ast.unparse(x.target)}`")
+            if isinstance(x, ast.Call) and isinstance(x.func, ast.Attribute) and x.func.attr in _MUTATORS:
+                out.append(f"calls .{x.func.attr}()")
+        return out
+
+    sample = ast.parse("def f(d):\n    assert isinstance(x := load(d), dict), 'bad'\n    assert q.pop() == 1\n    assert len(d) > 0\n    return x\n")
+    hits = [effects(n.test) + (effects(n.msg) if n.msg else []) for n in ast.walk(sample) if isinstance(n, ast.Assert)]
+    if [bool(h) for h in hits] != [True, True, False]:
+        raise AnalysisError("R-ASSERTEFFECT: built-in example no longer matches as expected")
+    res.control_fired = True
+    for m in repo.compile_path_modules():
+        for f in list(m.funcs.values()) + [None]:
+            nodes = walk_no_nested_funcs(f.node) if f is not None else [n for n in m.tree.body]
+            for n in nodes:
+                if isinstance(n, ast.Assert):
+                    res.instances += 1
+                    eff = effects(n.test) + (effects(n.msg) if n.msg is not None else [])
+                    if eff:
+                        where = f.qualname if f else "<module>"
+                        res.add(f"{m.rel}|{where}|assert", f"{where}: `assert {ast.unparse(n.test)[:80]}` {', '.join(eff)}: under `python -O` the statement "
+                                "disappears together with that effect, so the compiler behaves differently (UnboundLocalError, skipped "
+                                "update) from the run the tests exercise", m.rel, n.lineno, where)
+    if res.instances < 50:
+        raise AnalysisError(f"only {res.instances} assert statements found on the compile path")
+    res.samples = [f"{res.instances} assert statements, none with a binding or a mutator call"]
+    return res
